@@ -106,6 +106,58 @@ def run(ctx):
     njobs = 500 if ctx.quick else 12000
     jobs = [make_job(ctx.rng, i, ctx.quick) for i in range(njobs)]
     res = cr.sweep(ctx, PID, exe, jobs, job_ops, oracle, timeout=25 if ctx.quick else 120, extra_known=extra_known)
+    # ---- a plan of the real planner that fails the progress clause (PipeWF) is a broken hypothesis of the termination theorems:
+    #      search that very configuration for a call that does not return (one frame per call; end-of-input with a frame owed)
+    def targeted(x):
+        job, ops, tr, bad, info = x
+        if not tr.plan:
+            return None
+        out = cr.run_model([l for l in tr.model_in if l.startswith("cr.plan") or l.startswith("cr.stage")] + ["cr.wf"])
+        if not any(l.startswith("WF 0") for l in out):
+            return None
+        r = job["ratio"]; N = int(min(max(3 * r, 3000), 200000))
+        scheds = [[cr.create_line(job["cfg"]), "limit %d" % N] + ["feed 1 16 0"] * min(N, 40000) + ["drain 16", "hash"],
+                  [cr.create_line(job["cfg"]), "limit %d" % N, "feed %d 16 0" % N, "drain 16", "hash"],
+                  [cr.create_line(job["cfg"]), "limit %d" % N] + ["feed 1000 16 0"] * (N // 1000 + 1) + ["drain 1", "hash"]]
+        for sc in scheds:
+            t2 = cr.run_trace(exe, sc, job["env"], timeout=20)
+            if t2.rc == "timeout":
+                return job, sc, t2, out
+        return job, None, None, out
+    for hit in cr.pmap(targeted, res):
+        if hit is None:
+            continue
+        job, sc, t2, wfout = hit
+        ctx.count("plans_failing_PipeWF")
+        kn = [k for k in cr.classify_known(t2.plan if t2 else [], job["cfg"]) + extra_known(job, t2) if k in {f["id"] for f in common.known_active(PID)}] if t2 else []
+        if sc and not kn:
+            last = (t2.model_in or ["?"])[-1][:160]
+            ctx.violation("C08 fails on the real code: a call does not return within 20 s (%d calls had returned; last completed: %s) (%s %s); "
+                          "the plan fails the progress clause: %s" % (len(t2.results), last, cr.create_line(job["cfg"]), job["env"], [l for l in wfout if l.startswith("WF")]),
+                          {"cfg": job["cfg"], "env": job["env"], "ops": sc[:3] + ["... %d ops ..." % len(sc)] + sc[-3:], "n_ops": len(sc), "first_op": sc[2], "plan": t2.plan})
+    # ---- the variable-rate engine: the drain must end and then deliver nothing (watchdog; the VR control skeleton is modelled in C16)
+    vrjobs = []
+    for i in range(24 if ctx.quick else 300):
+        ir, orr = ctx.rng.choice([(44100, 48000), (48000, 44100), (1, 1), (3, 1), (1.37, 1), (1, 2.5), (16, 1), (5, 1), (100, 3)])
+        vrjobs.append({"cfg": {"ir": repr(float(ir)), "or": repr(float(orr)), "recipe": 4, "qflags": 32}, "env": {},
+                       "N": ctx.rng.choice([0, 1, 100, 5000, 20000]), "blk": ctx.rng.choice([1, 100, 1000, 100000]), "ol": ctx.rng.choice([1, 64, 256, 5000])})
+
+    def vrwork(j):
+        N = j["N"]; blk = max(j["blk"], N // 300 + 1); r = cr.io_ratio(j["cfg"])
+        ol = max(j["ol"], int(N / r) // 2000 + 1)
+        ops = [cr.create_line(j["cfg"]), "limit %d" % N] + ["feed %d %d 0" % (blk, ol)] * (N // blk + 1) + ["drain %d" % ol, "feed 0 100 0", "feed 0 1 0", "hash"]
+        return j, ops, cr.run_trace(exe, ops, j["env"], timeout=30)
+    for j, ops, t2 in cr.pmap(vrwork, vrjobs):
+        ctx.count("vr_drains_watched")
+        tot = sum(int(r["od"]) for r in t2.results)
+        if t2.rc == "timeout":
+            ctx.violation("C08 fails on the real code (variable-rate engine): the drain does not end: %d calls after `%s`, %d frames delivered for %d supplied (%s)" % (
+                len(t2.results), "drain", tot, j["N"], cr.create_line(j["cfg"])), {"cfg": j["cfg"], "ops": ops[:4] + ["..."] + ops[-4:], "n_ops": len(ops)})
+        elif t2.rc != 0:
+            ctx.violation("C08 (variable-rate engine): harness exit %s: %s (%s)" % (t2.rc, t2.err[-300:], cr.create_line(j["cfg"])), {"cfg": j["cfg"], "ops": ops[:4]})
+        elif t2.results and any(int(r["od"]) for r in t2.results[-2:]):
+            ctx.violation("C08 fails on the real code (variable-rate engine): frames delivered after the drain had returned nothing twice (%s)" % cr.create_line(j["cfg"]),
+                          {"cfg": j["cfg"], "ops": ops[:4] + ["..."] + ops[-4:]})
     worst = 0
     for job, ops, tr, bad, info in res:
         ctx.hist("dist_style", job["style"])
